@@ -75,9 +75,15 @@ class BlockingExecutor(Executor):
                 parent_value, self.context_value, info
             )
 
-        return self.complete_value(
-            field_definition.type, nodes, path, info, resolved
-        )
+        try:
+            return self.complete_value(
+                field_definition.type, nodes, path, info, resolved
+            )
+        except ResolverError as err:
+            # Raised while the value is consumed (e.g. by a generator, a type
+            # resolver or a custom scalar): a failure of this field.
+            self.add_error(err, path, node)
+            return None
 
     def complete_list_value(
         self,
